@@ -228,12 +228,45 @@ impl Selection {
     }
 
     pub(crate) fn contains_fragment(&self, fragment_id: ResolvedFragmentId, query: &Query) -> bool {
+        self.contains_fragment_inner(fragment_id, query, &mut Default::default())
+    }
+
+    /// Also follows spreads of *other* fragments (each one once), so that fragments that are
+    /// recursive only through each other (`A { b { ...B } }`, `B { a { ...A } }`) are detected.
+    fn contains_fragment_inner(
+        &self,
+        fragment_id: ResolvedFragmentId,
+        query: &Query,
+        visited_fragments: &mut std::collections::BTreeSet<ResolvedFragmentId>,
+    ) -> bool {
         match self {
-            Selection::FragmentSpread(id) => *id == fragment_id,
-            _ => self.subselection().iter().any(|selection_id| {
+            Selection::FragmentSpread(id) => {
+                if *id == fragment_id {
+                    return true;
+                }
+
+                if !visited_fragments.insert(*id) {
+                    return false;
+                }
+
                 query
-                    .get_selection(*selection_id)
-                    .contains_fragment(fragment_id, query)
+                    .get_fragment(*id)
+                    .selection_set
+                    .iter()
+                    .any(|selection_id| {
+                        query.get_selection(*selection_id).contains_fragment_inner(
+                            fragment_id,
+                            query,
+                            visited_fragments,
+                        )
+                    })
+            }
+            _ => self.subselection().iter().any(|selection_id| {
+                query.get_selection(*selection_id).contains_fragment_inner(
+                    fragment_id,
+                    query,
+                    visited_fragments,
+                )
             }),
         }
     }
